@@ -209,6 +209,8 @@ def run(ck):
     from ..report import RuleView as _RV
     from . import c13 as _c13
     _c13.run(_RV(ck, {"C13.1": "C15.10"}, only_constructs=(":accept-test",)))      # the accept test only; the other thresholds are C13's
+    ck.clause("C15.13", "a segment's start / end positions are its first / last aligned pair in the order of its positions")
+    segment_endpoints(ck, "C15.13")
     ck.clause("C15.12", "only neighbours in the chain can overlap: the chainer gives minus infinity to a join of two segments that overlap "
                         "by more than half of the shorter one, so the single pairwise pass sees every overlap (as C14.2)")
     from . import c14 as _c14
@@ -528,30 +530,42 @@ def label_table_members(ck, rule):
             if not pos[1]:
                 kinds["none"].append(pa)
                 continue
-            lab = pos[1][0]
-            elem = [x for x in T.subterms(lab) if x[0] == "elem"]
-            if not elem:
-                kinds["unknown"].append((pa, lab))
-                continue
-            E = elem[0]
+            # a label written as a conditional expression is its cases, each under its own condition
+            cases0 = []
 
-            def tested(obj, cls_suffix):
-                return any(t[0] == "call" and t[1] == "isinstance" and t[2][0] == obj and
-                           any(y[0] == "cls" and y[1].endswith(":" + cls_suffix) for y in T.subterms(t[2][1])) for t in true_tests)
+            def split_label(lab0, tests0, false0):
+                if lab0[0] == "select":
+                    c0, pos0 = T.positive(lab0[1])
+                    cs = list(c0[1]) if c0[0] == "and" and pos0 else [c0]
+                    split_label(lab0[2], tests0 + (cs if pos0 else []), false0 + ([] if pos0 else [c0]))
+                    split_label(lab0[3], tests0 + ([] if pos0 else [c0]), false0 + ([c0] if pos0 else []))
+                else:
+                    cases0.append((lab0, tests0, false0))
+            split_label(pos[1][0], list(true_tests), [])
             other = "query" if side == "reference" else "reference"
-            if lab == T.mk_attr(E, side):
-                kinds["pair"].append(pa)
-            elif lab == T.mk_attr(T.mk_attr(E, "position"), side):
-                if tested(T.mk_attr(E, "position"), wanted_cls):
-                    kinds["unpaired"].append(pa)
-                elif tested(E, wanted_cls):
-                    kinds["wrapper-test"].append(pa)
+            for lab, tests1, false1 in cases0:
+                elem = [x for x in T.subterms(lab) if x[0] == "elem"]
+                if not elem:
+                    kinds["unknown"].append((pa, lab))
+                    continue
+                E = elem[0]
+
+                def tested(obj, cls_suffix, tests1=tests1):
+                    return any(t[0] == "call" and t[1] == "isinstance" and t[2][0] == obj and
+                               any(y[0] == "cls" and y[1].endswith(":" + cls_suffix) for y in T.subterms(t[2][1])) for t in tests1)
+                if lab == T.mk_attr(E, side):
+                    kinds["pair"].append(pa)
+                elif lab == T.mk_attr(T.mk_attr(E, "position"), side):
+                    if tested(T.mk_attr(E, "position"), wanted_cls):
+                        kinds["unpaired"].append(pa)
+                    elif tested(E, wanted_cls):
+                        kinds["wrapper-test"].append(pa)
+                    else:
+                        kinds["unknown"].append((pa, lab))
+                elif lab in (T.mk_attr(E, other), T.mk_attr(T.mk_attr(E, "position"), other)):
+                    kinds["other-side"].append(pa)
                 else:
                     kinds["unknown"].append((pa, lab))
-            elif lab in (T.mk_attr(E, other), T.mk_attr(T.mk_attr(E, "position"), other)):
-                kinds["other-side"].append(pa)
-            else:
-                kinds["unknown"].append((pa, lab))
         w = fn.where
         for pa in kinds["wrapper-test"]:
             ck.violation(rule, short(fn) + ":unpaired-labels", where(fn, pa.node),
@@ -574,6 +588,64 @@ def label_table_members(ck, rule):
                      found=f"{len(kinds['unpaired'])} path(s) append position.position.{side}",
                      required=f"a ScoredNotAlignedPosition wrapping a {wanted_cls} is appended")
     ck.floor(f"{rule} return paths of the label tables", n_paths, 6)
+
+
+def segment_endpoints(ck, rule, only_label_numbers=False):
+    """A segment's start / end are its first / last aligned pair *in the order of its positions* (ascending coordinates on both
+    strands). Ordering the aligned pairs by label number first exchanges start and end of every reverse-strand segment: the
+    chainer's distances change sign and conflict windows are cut from the wrong side."""
+    p = ck.ctx.p
+    seg = p.find_class("AlignmentSegment")
+    init = p.lookup_method(seg, "__init__", None)
+    if init is None:
+        raise AnalysisError("AlignmentSegment.__init__ not found")
+    pos_param = V(init.call_params()[0].name)
+    n = 0
+    for pa in explore(ck, init):
+        if pa.outcome not in ("fall", "return"):
+            continue
+        for e in pa.events:
+            if e.kind != "setattr" or e.extra.get("target") != self_attr("alignedPositions"):
+                continue
+            n += 1
+            t = e.term
+            w = where(init, e.node)
+            inner = t
+            srt = None
+            while inner[0] == "call" and inner[1] in ("list", "tuple", "sorted") and inner[2]:
+                if inner[1] == "sorted":
+                    srt = inner
+                inner = inner[2][0]
+            plain = inner[0] == "comp" and len(inner[3]) == 1 and inner[3][0][0] == pos_param and inner[2][0] == "bv"
+            if srt is not None:
+                key = dict(srt[3]).get("key")
+                by_number = key is not None and any(x[0] == "attr" and x[2] == "siteId" for x in T.subterms(key)) or \
+                    (key is not None and key[0] == "fn" and "SiteId" in key[1])
+                if by_number:
+                    ck.violation(rule, short(init) + ":alignedPositions", w,
+                                 "the aligned pairs of a segment are ordered by label number: on the reverse strand query label "
+                                 "numbers descend, so startPosition / endPosition of every '-' segment are exchanged (join distances "
+                                 "change sign, conflict windows are cut from the wrong end) while '+' segments are unaffected",
+                                 found=T.show(t)[:200], required="[p for p in positions if isinstance(p, ScoredAlignedPair)] in list order")
+                elif not only_label_numbers:
+                    raise AnalysisError(f"{w}: aligned pairs of a segment are re-ordered: {T.show(t)[:160]}")
+            elif plain:
+                ck.ok(rule, short(init) + ":alignedPositions", w, "aligned pairs are kept in the order of the segment's positions", T.show(t)[:120])
+            elif not only_label_numbers:
+                raise AnalysisError(f"{w}: aligned pairs of a segment not recognised: {T.show(t)[:160]}")
+    if n == 0 and not only_label_numbers:
+        raise AnalysisError(f"{init.where}: the store of alignedPositions was not found")
+    if only_label_numbers:
+        return
+    from ..rules.common import merged_return
+    for name, idx in (("startPosition", C(0)), ("endPosition", C(-1))):
+        m = seg.methods.get(name)
+        if m is None:
+            raise AnalysisError(f"AlignmentSegment.{name} not found")
+        v, pa = merged_return(ck, m)
+        ck.judge(v == T.mk_idx(self_attr("alignedPositions"), idx), rule, short(m), where(m, pa.node),
+                 f"{name} is the {'first' if idx == C(0) else 'last'} aligned pair", found=T.show(v)[:120],
+                 required=f"self.alignedPositions[{idx[1]}]")
 
 
 def conflict_decision(ck, rule, test_fn=None, only_label_numbers=False):
